@@ -5,7 +5,7 @@ Open Scope Z_scope.
 Definition harness_fuel : nat := 700.
 
 Definition variant_of (n : Z) : variant :=
-  {| v_filter_per_record := Z.testbit n 0; v_idx_gate := Z.testbit n 1 |}.
+  {| v_filter_per_record := Z.testbit n 0 |}.
 
 Definition outitem_eqb (a b : outitem) : bool :=
   match a, b with
